@@ -503,6 +503,12 @@ func (E *Engine) callFn(fr *Frame, st *State, fn *ssa.Function, args []Val, bind
 	if h := E.P.contracts[org]; h != nil && !fr.spec && !(fr.proveTarget == org) && !E.harness.InlineTargets[org] {
 		return E.useContract(fr, st, h, fn, args, instr)
 	}
+	if E.P.pureFns[org] {
+		// declared //verif:pure: no effect, result a function of the arguments (and of the memory read
+		// through slice / map / small-struct arguments); an assumption, listed
+		E.note("declared pure (//verif:pure): " + shortName(name) + " has no effect and returns a function of its arguments")
+		return E.pureResult(fr, st, name, res, args, instr)
+	}
 	if E.P.opaque[org] {
 		ws := E.writes(body, tenv)
 		if fr.spec {
